@@ -36,7 +36,7 @@ ASSUMPTIONS = ['dict keys are str (the property\'s nesting); python ints outside
 PARTIAL = ['the CONTENT of pickled states (save_state/load_state) is checked by the oracle only (pickle is opaque to the model); which state / round a '
            'save_checkpoint / load_latest_checkpoint sequence returns is modelled (ck_run) and proved (C16_checkpoint_last_save_wins)',
            'zlib and the SQLite engine are not modelled: the model stores the msgpack document tree per row']
-CASE_TIMEOUT = 30
+CASE_TIMEOUT = 900
 
 WIDTH = {'int8': 1, 'int16': 2, 'int32': 4, 'int64': 8, 'uint8': 1, 'uint16': 2, 'uint32': 4, 'uint64': 8,
          'float16': 2, 'bfloat16': 2, 'float32': 4, 'float64': 8, 'complex64': 8, 'complex128': 16, 'bool': 1}
@@ -164,7 +164,7 @@ def _unhex(h):
 def _build(spec):
   t = spec['t']
   if t == 'dict':
-    return {k: _build(v) for k, v in spec['items']}
+    return {(bytes.fromhex(k['b']) if isinstance(k, dict) else k): _build(v) for k, v in spec['items']}
   if t == 'list':
     return [_build(v) for v in spec['items']]
   if t == 'tuple':
@@ -255,7 +255,7 @@ def _observe(y):
   if isinstance(y, dict):
     items = []
     for k, v in y.items():
-      items.append([k if isinstance(k, str) else {'nonstr': type(k).__name__}, _observe(v)])
+      items.append([k if isinstance(k, str) else {'b': k.hex()} if type(k) is bytes else {'nonstr': type(k).__name__}, _observe(v)])
     return {'t': 'dict', 'items': items}
   if isinstance(y, list):
     return {'t': 'list', 'items': [_observe(v) for v in y]}
@@ -545,6 +545,61 @@ def _falsy_trees():
                                 {'t': 'obj', 'shape': [0], 'elems': []}]}
 
 
+def _sentinel_trees():
+  """Legal user values that look like the format's own markers / names / keys."""
+  h = lambda b: b.hex()
+  I = lambda v: {'t': 'int', 'v': str(v)}
+  inner = b'\x93\x91\x02\xa4int8\xc4\x02\x01\x02'            # msgpack of ((2,), 'int8', b'\x01\x02'): an ndarray payload
+  yield {'t': 'bytes', 'hex': h(inner)}
+  yield {'t': 'bytes', 'hex': h(b'\xc7\x0b\x01' + inner)}        # a complete ext-type-1 frame as user bytes
+  yield {'t': 'obj', 'shape': [2], 'elems': [h(inner), h(b'\xc1\xd4\x01\x00')]}
+  yield {'t': 'list', 'items': [{'t': 'str', 'v': v} for v in ('bfloat16', 'float32', 'object', '__mask__', 'shape', 'dtype', 'None', '')]}
+  yield {'t': 'dict', 'items': [[k, I(i)] for i, k in enumerate(['ndarray', 'native_complex', 'npscalar', 'bytes_ndarray', '__mask__',
+                                                               'client_id', 'data', 'num_examples', 'x', 'x ', ' x', 'X', '1', '01',
+                                                               'e\u0301', '\u00e9', 'None', 'True'])]}
+  # keys that collide only after a str()/bytes conversion: 'a' and b'a', '1' and b'1' (bytes keys are legal msgpack map keys)
+  yield {'t': 'dict', 'items': [['a', I(1)], [{'b': h(b'a')}, I(2)], ['1', I(3)], [{'b': h(b'1')}, I(4)], [{'b': ''}, I(5)], ['', I(6)]]}
+  yield {'t': 'dict', 'items': [[{'b': h(b'k')}, arr_spec('int16', 'swapped', 'F', [2, 3])]]}
+  # integers equal to the ext codes / msgpack markers, floats that are exactly those integers
+  yield {'t': 'list', 'items': [I(v) for v in (1, 2, 3, 4, 0xc1, 0xc7, 0xd4, -32, -33)] + [{'t': 'float', 'bits': 0x3ff0000000000000}]}
+  # numpy scalars of every kind next to the python scalar with the same value
+  yield {'t': 'list', 'items': [{'t': 'npscalar', 'dtype': 'complex128', 'bits': (0x4000000000000000 << 64) | 0x3ff0000000000000},
+                                {'t': 'complex', 're': 0x3ff0000000000000, 'im': 0x4000000000000000},
+                                {'t': 'npscalar', 'dtype': 'float64', 'bits': 0x3ff0000000000000}, {'t': 'float', 'bits': 0x3ff0000000000000},
+                                {'t': 'npscalar', 'dtype': 'int64', 'bits': 1}, I(1), {'t': 'npscalar', 'dtype': 'bool', 'bits': 1},
+                                {'t': 'bool', 'v': True}, {'t': 'npscalar', 'dtype': 'complex64', 'bits': (0x40000000 << 32) | 0x3f800000}]}
+
+
+def _order_trees(rng):
+  """Keys NOT in sorted order, with a different value per key (a mis-association or re-ordering is visible)."""
+  for keys in (['c02', 'c00', 'c10'], ['z', 'a', 'm', 'B', '_'], ['10', '9', '1', '01']):
+    yield {'t': 'dict', 'items': [[k, arr_spec('int32', 'native', 'C', [2], salt=3 * i + 1)] for i, k in enumerate(keys)]}
+    yield {'t': 'dict', 'items': [[k, {'t': 'dict', 'items': [[k2, {'t': 'int', 'v': str(10 * i + j)}] for j, k2 in enumerate(reversed(keys))]}]
+                                  for i, k in enumerate(keys)]}
+
+
+def _deep_tree(depth, leaf):
+  t = leaf
+  for d in range(depth):
+    t = {'t': 'dict', 'items': [['k%d' % d, t]]} if d % 2 else {'t': 'list', 'items': [t]}
+  return t
+
+
+def _size_trees():
+  """Lengths around msgpack's framing boundaries (fix / 8 / 16 / 32 bit headers).  Oracle only (too large for Coq terms)."""
+  for n in (31, 32, 255, 256, 65535, 65536):
+    yield {'t': 'str', 'v': 'x' * n}
+    yield {'t': 'bytes', 'hex': '07' * n}
+    yield {'t': 'arr', 'dtype': 'uint8', 'order': 'native', 'layout': 'C', 'shape': [n], 'bits': [i % 251 for i in range(n)]}
+  for n in (15, 16, 17, 255, 256):
+    yield {'t': 'list', 'items': [{'t': 'int', 'v': str(i)} for i in range(n)]}
+    yield {'t': 'dict', 'items': [['k%d' % (n - i), {'t': 'int', 'v': str(i)}] for i in range(n)]}
+    yield {'t': 'obj', 'shape': [n], 'elems': [(b'%d' % i).hex() for i in range(n)]}
+  yield {'t': 'list', 'items': [{'t': 'int', 'v': str(i)} for i in range(65536)]}
+  yield {'t': 'arr', 'dtype': 'uint16', 'order': 'swapped', 'layout': 'F', 'shape': [300, 130], 'bits': [i % 65536 for i in range(39000)]}
+  yield {'t': 'arr', 'dtype': 'int8', 'order': 'native', 'layout': 'C', 'shape': [0, 70000], 'bits': []}
+
+
 def _sqlite_cases(rng, n):
   for i in range(n):
     nclients = rng.choice([0, 1, 2, 3, 5])
@@ -567,6 +622,14 @@ def _sqlite_cases(rng, n):
           feats.append([name, arr_spec(dt, order, rng.choice(LAYOUTS[:4]), [m] + tail, rng=rng)])
       clients.append([cid.hex(), feats])
     yield {'kind': 'sqlite', 'clients': clients}
+  # sentinel collisions: ids / feature names equal to SQL text, column names, internal keys, wildcards, prefixes of each
+  # other, NUL bytes; presented in non-sorted order with a different value per client
+  ids = [b'None', b"' OR '1'='1", b'client_id', b'%', b'_', b'a\x00', b'a', b'\x00', b'-1', b'0', b'', b'rowid', b'a\x00\x00']
+  names = ['__mask__', 'client_id', 'data', 'num_examples', 'rowid', '', 'x ', 'X']
+  yield {'kind': 'sqlite', 'clients': [[cid.hex(), [[names[(i + j) % len(names)], arr_spec('int32', 'native', 'C', [1 + i % 3], salt=5 * i + j)]
+                                                    for j in range(1 + i % 3)]] for i, cid in enumerate(ids)]}
+  yield {'kind': 'sqlite', 'clients': [[cid.hex(), [['tokens', {'t': 'obj', 'shape': [2], 'elems': [cid.hex(), (b'\xc7\x01' + cid).hex()]}]]]
+                                       for cid in reversed(ids)]}
   # malformed: inconsistent leading dimensions, unsupported feature, no features
   yield {'kind': 'sqlite', 'clients': [[b'a'.hex(), [['x', arr_spec('int32', 'native', 'C', [2])],
                                                     ['y', arr_spec('int32', 'native', 'C', [3])]]]]}
@@ -595,8 +658,10 @@ def _ckptseq_cases(rng, n):
       [['save', 5, 1], ['save', 3, 1], ['load'], ['save', 5, 1], ['load']],    # a lower round is cleaned up at once
       [['save', 9, 2], ['save', 10, 2], ['save', 11, 2], ['save', 10, 2], ['load'], ['save', 11, 2], ['load']],
   ]
-  for ops in fixed:
+  for i, ops in enumerate(fixed):
     yield {'kind': 'ckptseq', 'ops': ops, 'jax': False}
+    if i % 2 == 0:
+      yield {'kind': 'ckptseq', 'ops': ops, 'jax': False, 'strays': True}
   for i in range(n):
     rounds = rng.sample(range(0, 12), rng.choice([1, 2, 3]))
     keep = rng.choice([1, 1, 2, 3])
@@ -608,7 +673,7 @@ def _ckptseq_cases(rng, n):
       else:
         ops.append(['load'])
     ops.append(['load'])
-    yield {'kind': 'ckptseq', 'ops': ops, 'jax': i % 4 == 0}
+    yield {'kind': 'ckptseq', 'ops': ops, 'jax': i % 4 == 0, **({'strays': True} if i % 5 == 0 else {})}
   for i in range(max(3, n // 8)):
     k = rng.choice([2, 3, 4])
     yield {'kind': 'stateseq', 'n': k, 'jax': i % 2 == 0, 'reload_between': bool(i % 3)}
@@ -635,6 +700,11 @@ def generate(tier, rng):
   objs, unsup, scal, jaxl = list(_obj_leaves()), list(_unsupported_leaves()), list(_scalar_leaves()), list(_jax_leaves())
   for s in objs + unsup + scal + jaxl + list(_falsy_trees()):
     yield {'kind': 'tree', 'tree': s}
+  for s in list(_sentinel_trees()) + list(_order_trees(rng)) + list(_size_trees()):
+    yield {'kind': 'tree', 'tree': s}
+  for depth in (4, 6, 9):
+    yield {'kind': 'tree', 'tree': _deep_tree(depth, arr_spec('float16', 'swapped', 'reversed', [3]))}
+    yield {'kind': 'tree', 'tree': _deep_tree(depth, {'t': 'tuple', 'items': []})}
   for s in _extra_leaves():
     yield {'kind': 'tree', 'tree': s}
     yield {'kind': 'tree', 'tree': {'t': 'dict', 'items': [['k', s], ['n', {'t': 'int', 'v': '1'}]]}}
@@ -653,6 +723,9 @@ def generate(tier, rng):
     yield c
   for c in _ckptseq_cases(rng, {'quick': 40, 'thorough': 250, 'search': 100}[tier]):
     yield c
+  if tier == 'thorough':
+    yield {'kind': 'flags', 'env': {'JAX_ENABLE_X64': '1'}}
+    yield {'kind': 'flags', 'env': {'JAX_ENABLE_X64': '0', 'JAX_NUMPY_RANK_PROMOTION': 'raise', 'JAX_DISABLE_JIT': '1'}}
   # falsy-but-valid states: they must come back (not be mistaken for "no checkpoint")
   for i, t in enumerate([{'t': 'none'}, {'t': 'int', 'v': '0'}, {'t': 'float', 'bits': 0}, {'t': 'bool', 'v': False}, {'t': 'str', 'v': ''},
                          {'t': 'bytes', 'hex': ''}, {'t': 'dict', 'items': []}, {'t': 'list', 'items': []},
@@ -676,7 +749,7 @@ def _describe_input(spec, obj):
   """Spec of the input annotated with the real object's memory (arrays only)."""
   t = spec['t']
   if t == 'dict':
-    return {'t': 'dict', 'items': [[k, _describe_input(v, obj[k])] for k, v in spec['items']]}
+    return {'t': 'dict', 'items': [[k, _describe_input(v, obj[bytes.fromhex(k['b']) if isinstance(k, dict) else k])] for k, v in spec['items']]}
   if t in ('list', 'tuple'):
     return {'t': t, 'items': [_describe_input(v, o) for v, o in zip(spec['items'], obj)]}
   if t == 'arr' and not spec.get('jax'):
@@ -698,7 +771,7 @@ def _check_built(spec, obj):
   t = spec['t']
   if t == 'dict':
     for k, v in spec['items']:
-      _check_built(v, obj[k])
+      _check_built(v, obj[bytes.fromhex(k['b']) if isinstance(k, dict) else k])
   elif t in ('list', 'tuple'):
     for v, o in zip(spec['items'], obj):
       _check_built(v, o)
@@ -751,7 +824,19 @@ def _run_tree(case):
   except Exception:  # pylint: disable=broad-except
     pass
   obs['kept_unchanged'] = (_observe(back) == first)
+  # the round trip applied twice: a decoded value serialises to the same bytes and decodes to the same value
+  try:
+    with contextlib.redirect_stdout(sink):
+      data2 = serialization.msgpack_serialize(back)
+      obs['twice'] = bool(_observe(serialization.msgpack_deserialize(data2)) == first and data2 == data)
+  except Exception as ex:  # pylint: disable=broad-except
+    obs['twice'] = False
   return obs
+
+
+def _has_jax_or_view(spec):
+  return True      # byte-identical re-serialisation is required of every input kind (jax / views decode to plain arrays with the same bytes)
+
 
 
 def _container_sig(o):
@@ -984,6 +1069,13 @@ def _run_ckptseq(case):
   try:
     loads, k = [], 0
     nsaves = sum(1 for op in case['ops'] if op[0] == 'save')
+    strays = []
+    if case.get('strays'):      # files that LOOK like checkpoints but are not: never loaded, never counted
+      strays = ['checkpoint_0000001', 'checkpoint_000000012', 'checkpoint_00000077.tmp', 'checkpoint_abc', 'checkpoint_', 'xcheckpoint_00000099',
+                'checkpoint_00000003.bak']
+      for nm in strays:
+        with open(os.path.join(d, nm), 'wb') as f:
+          f.write(b'not a pickle')
     try:
       for op in case['ops']:
         if op[0] == 'save':
@@ -1015,7 +1107,9 @@ def _run_ckptseq(case):
             loads.append(None if got is None else [int(got[1]), _which_state(_observe(got[0]), nsaves, case['jax'])])
     except Exception as ex:  # pylint: disable=broad-except
       return {'status': 'error', 'err': _err(ex), 'loads': loads}
-    return {'status': 'ok', 'loads': loads, 'files': sorted(os.listdir(d))}
+    left = sorted(os.listdir(d))
+    return {'status': 'ok', 'loads': loads, 'files': [f for f in left if f not in strays],
+            'strays_kept': all(f in left for f in strays)}
   finally:
     shutil.rmtree(d, ignore_errors=True)
 
@@ -1055,8 +1149,47 @@ def _ckpt_reference(ops):
   return out
 
 
+_FLAG_SCRIPT = '''
+import json, sys
+sys.path.insert(0, %r)
+from harness import c16
+import jax
+x64 = bool(jax.config.jax_enable_x64)
+out = []
+wide = ('int64', 'uint64', 'float64', 'complex128') if x64 else ()
+cases = [{'kind': 'tree', 'tree': c16.arr_spec(dt, 'native', 'C', shape, jax=True, salt=3)}
+         for dt in wide + ('int32', 'float32', 'bfloat16', 'bool', 'complex64') for shape in ([], [0], [2, 3])]
+weak = (('float64', 0x3ff8000000000000), ('int64', 7), ('complex128', (0x4000000000000000 << 64) | 0x3ff8000000000000)) if x64 else \
+    (('float32', 0x3fc00000), ('int32', 7), ('complex64', (0x40000000 << 32) | 0x3fc00000))
+cases += [{'kind': 'tree', 'tree': {**c16.arr_spec(dt, 'native', 'C', [], jax=True), 'bits': [b], 'jaxform': 'weak'}} for dt, b in weak]
+cases += [{'kind': 'tree', 'tree': {**c16.arr_spec('float32', 'native', 'C', [2, 3], jax=True), 'jaxform': 'jit'}}]
+cases += [{'kind': 'ckpt', 'api': 'checkpoint', 'tree': c16._tagged_state(2, True), 'round': 1, 'keep': 1}]
+for c in cases:
+  o = c16.run(c)
+  for k, w in c16.oracle(c, o):
+    out.append([k, w, c])
+print('RESULT' + json.dumps({'n': len(cases), 'bad': out}))
+'''
+
+
+def _run_flags(case):
+  """The jax-leaf cases again in a fresh process with a global jax flag set (64-bit jax dtypes exist only under x64)."""
+  import subprocess
+  import sys
+  env = dict(os.environ, **case['env'])
+  p = subprocess.run([sys.executable, '-c', _FLAG_SCRIPT % os.path.dirname(os.path.dirname(os.path.abspath(__file__)))],
+                     env=env, capture_output=True, text=True, timeout=600)
+  line = [l for l in p.stdout.split('\n') if l.startswith('RESULT')]
+  if not line:
+    return {'status': 'error', 'err': (p.stderr or p.stdout)[-400:]}
+  import json
+  return {'status': 'ok', **json.loads(line[0][6:])}
+
+
 def run(case):
   k = case['kind']
+  if k == 'flags':
+    return _run_flags(case)
   if k == 'ckptseq':
     return _run_ckptseq(case)
   if k == 'stateseq':
@@ -1078,6 +1211,14 @@ def _has_extra(spec):
     return any(_has_extra(v) for _, v in spec['items'])
   if spec['t'] in ('list', 'tuple'):
     return any(_has_extra(v) for v in spec['items'])
+  return False
+
+
+def _has_bytes_key(spec):
+  if spec['t'] == 'dict':
+    return any(isinstance(k, dict) or _has_bytes_key(v) for k, v in spec['items'])
+  if spec['t'] in ('list', 'tuple'):
+    return any(_has_bytes_key(v) for v in spec['items'])
   return False
 
 
@@ -1121,6 +1262,8 @@ def _tree_oracle(spec, obs, prefix=''):
       out.append((prefix + 'input-mutated', 'serialisation modified its input (array bits, or a container\'s identity / keys / length)'))
     if obs.get('aliases'):
       out.append((prefix + 'result-aliases', 'a decoded array shares memory with the input or with another decoding of the same bytes'))
+    if obs.get('twice') is False:
+      out.append((prefix + 'second-roundtrip', 'serialising the decoded value again does not give the same bytes / the same value'))
     if obs.get('kept_unchanged') is False:
       out.append((prefix + 'result-changed-later', 'a decoded value kept by the caller changed after later (de)serialisation calls'))
   else:
@@ -1145,6 +1288,10 @@ def _jax_to_np(o):
 
 def oracle(case, obs):
   k = case['kind']
+  if k == 'flags':
+    if obs['status'] != 'ok':
+      return [('flags-error', 'the jax-leaf cases could not be run with ' + str(case['env']) + ': ' + obs.get('err', ''))]
+    return [(key + '@' + ','.join(f'{a}={b}' for a, b in sorted(case['env'].items())), what) for key, what, _ in obs['bad'][:1]]
   if k in ('ckptseq', 'stateseq'):
     if obs['status'] != 'ok':
       return [('ckpt-error', f'saving / loading raised {obs.get("err")}')]
@@ -1157,6 +1304,8 @@ def oracle(case, obs):
                  f'{what} #{i + 1} returned (round/step, state) {g}; the state last saved there is {w} (-1 = no saved state)')]
     if any(f.endswith('.tmp') for f in obs['files']):
       return [('ckpt-tmp-left', 'a temporary file is left behind')]
+    if obs.get('strays_kept') is False:
+      return [('ckpt-foreign-removed', 'a file that is not a checkpoint (other name pattern) was removed by save_checkpoint')]
     return []
   if k == 'tree':
     return _tree_oracle(case['tree'], obs)
@@ -1295,7 +1444,7 @@ def _val(s):
 
 def encode(case, obs):
   k = case['kind']
-  if k == 'tree' and _has_extra(case['tree']):
+  if k == 'tree' and (_has_extra(case['tree']) or _has_bytes_key(case['tree'])):
     return None
   if k == 'tree':
     c = f'(CValue {_val(obs["input"])})'
@@ -1361,7 +1510,7 @@ def _depth(spec):
 
 
 def nontrivial(case, obs):
-  if case['kind'] in ('ckptseq', 'stateseq'):
+  if case['kind'] in ('ckptseq', 'stateseq', 'flags'):
     return True
   if case['kind'] == 'tree':
     return _count(case['tree']) > 0
